@@ -310,6 +310,9 @@ class SerialShim:
         sim = kernel.CURRENT
         device = sim.device
         outcome = device.next_outcome(("serial", port, baudrate, kwargs.get("timeout")))
+        if outcome == "slow":
+            sim.block(("connect",), 0.25)  # the open takes a while (USB re-enumeration, ...)
+            outcome = "ok"
         if outcome != "ok":
             raise _real_serial.SerialException(f"could not open port {port}: simulated {outcome}")
         return FakeSerial(device, port, baudrate, kwargs.get("timeout"))
@@ -326,6 +329,9 @@ class SocketShim:
         sim = kernel.CURRENT
         device = sim.device
         outcome = device.next_outcome(("tcp", tuple(address), timeout))
+        if outcome == "slow":
+            sim.block(("connect",), 0.25)  # a slow three-way handshake
+            outcome = "ok"
         if outcome == "ok":
             return FakeSocket(device, tuple(address), timeout)
         if outcome == "timeout":
